@@ -76,6 +76,8 @@ def gen_script(rnd, long=False):
             for _ in range(rnd.randint(1, 3)):
                 ops.append(["send", rnd.choice(S.KINDS), "idem", rnd.choice(["t1", "t2", "t3"])])
             ops.append(["turns", rnd.randint(0, 3)])
+            if rnd.random() < 0.3:
+                ops.append(["cancel_sends"])
             ops.append(["unstall"])
         elif c < 0.94:
             ops.append(["q"])
@@ -124,6 +126,16 @@ def directed():
             out.append([["q"], ["slow_conn", busy], ["fin"], ["adv", when], ["reset"],
                         ["send", "ac_ctrl", "idem", "t1"], ["adv", busy + 5.0],
                         ["send", "zone_ctrl", "idem", "inline"], ["adv", 3.0]])
+    # the application cancels sends that are suspended on a stalled link (a time-out around
+    # them); whatever was handed to the transport goes out once, later traffic is unaffected
+    for k in (1, 3):
+        for turns in (1, 3):
+            out.append([["q"], ["stall"]]
+                       + [["send", S.KINDS[i % 3], ("idem", "nonidem", "long")[i % 3], f"t{i + 1}"]
+                          for i in range(k)]
+                       + [["turns", turns], ["cancel_sends"], ["unstall"], ["adv", 0.5],
+                          ["send", "zone_ctrl", "idem", "inline"], ["fin"], ["adv", 3.0],
+                          ["send", "ac_ctrl", "idem", "inline"], ["adv", 1.0]])
     # an unencodable message between good ones, sent at once and held for the next connection
     for how in ("struct", "value"):
         out.append([["q"], ["send", "zone_ctrl", "idem", "inline"], ["send_bad", how, "inline"],
@@ -272,7 +284,10 @@ def check(gen, run):
             v("accepted-message-never-transmitted", serial=r["serial"], policy=r["policy"],
               accepted_at=r["call_t"], connection_at=when)
     # nothing transmitted that should have expired / was not accepted
-    acc_set = {r["serial"] for r in accepted}
+    # (a send the application cancelled while it was under way had been accepted: it may have
+    # reached the wire - once - or not)
+    acc_set = {r["serial"] for r in accepted} | {r["serial"] for r in run.sends
+                                                 if r["outcome"] == "cancelled"}
     for seq, t, cid, s in seen_serials:
         rec = next(r for r in run.sends if r["serial"] == s)
         if s not in acc_set:
